@@ -14,6 +14,7 @@ import Compio.Lemmas.ActorLife
 import Compio.Lemmas.Registry
 import Compio.Lemmas.History
 import Compio.Model.ActorWorld
+import Compio.Gen.MembershipDrop
 
 namespace Compio.Props.C19
 open Compio Compio.Actor
@@ -131,6 +132,50 @@ theorem closed_during_stop_hooks {cap named s} (h : Reached cap named s)
   obtain ⟨evs, hr⟩ := h
   have hR : InvR s := run_induct (invR_init cap named) invR_step hr
   simp [St.isClosed, hR.stopping hp]
+
+/-- `Mailbox::stop` is idempotent in every lifecycle phase after `begin_stop`: for every event history, once the
+actor is in its stop phase (stop token consumed and `pre_stop` running however long, or `finish` entered after a
+handler / `post_start` failure while the receiver is still alive, or later) a `stop()` call reports `false` --
+no second caller is told that it requested the stop, and a failing actor never claims a graceful stop request.
+(Seed C19-5a: `try_send` first, flag afterwards, return the `try_send` result.) -/
+theorem stop_refused_in_stop_phase {cap named s} (h : Reached cap named s)
+    (hp : s.pc.afterBeginStop = true) {b : Bool} {s' : St} (hs : stopNow s = some (b, s')) : b = false := by
+  obtain ⟨evs, hr⟩ := h
+  have hR : InvR s := run_induct (invR_init cap named) invR_step hr
+  have hst : s.stopping = true := hR.stopping hp
+  unfold stopNow at hs
+  rw [if_pos hst] at hs
+  cases hq : step s .stopSwap with
+  | none => simp [hq] at hs
+  | some s1 =>
+    simp [hq] at hs
+    exact hs.1
+
+/-- A `stop()` on a mailbox whose flag is already set reports `false` and changes nothing observable
+(`swap(true)` on `true`), whatever the phase. -/
+theorem stop_idempotent_when_stopping {s : St} (hst : s.stopping = true) {b : Bool} {s' : St}
+    (hs : stopNow s = some (b, s')) : b = false ∧ s' = s := by
+  unfold stopNow at hs
+  rw [if_pos hst] at hs
+  unfold step at hs
+  by_cases hc : s.chanAlive = true
+  · simp [hc, hst] at hs
+    exact ⟨hs.1, hs.2.symm⟩
+  · simp [hc] at hs
+
+/-- After any completed `stop()` the flag is set, so (with `stop_idempotent_when_stopping`) the next
+uninterrupted `stop()` reports `false`. -/
+theorem stop_sets_flag {s : St} {b : Bool} {s' : St} (hs : stopNow s = some (b, s')) : s'.stopping = true := by
+  by_cases hst : s.stopping = true
+  · rw [(stop_idempotent_when_stopping hst hs).2]; exact hst
+  · unfold stopNow at hs
+    rw [if_neg hst] at hs
+    unfold step at hs
+    by_cases hc : s.chanAlive = true
+    · simp [hc, hst] at hs
+      obtain ⟨_, h2⟩ := hs
+      rw [← h2]
+    · simp [hc] at hs
 
 /-! ## 2. Lifecycle hooks: documented order, exactly once, on every path -/
 
@@ -737,6 +782,16 @@ example :
     let evs : List Registry.REv := [.reserve 1 "a", .reserve 2 "a", .activate 1]
     ∃ s, Registry.RSt.run {} evs = some s ∧ Registry.get s.map "a" = some 1 ∧ s.live.length = 1 := by
   refine ⟨_, rfl, ?_⟩
+  decide
+
+/-- Atomicity of a leave, over the definitions GENERATED from `impl Drop for Membership` (extractor target
+`MembershipDrop`): the body takes the group lock exactly once and both the lookup (`position`) and the `remove`
+go through that one guard, so a leave is ONE critical section -- the premise under which `GEv.leave` is a single
+event of the sequential group histories of `group_no_delivery_to_departed_member`,
+`group_send_uses_current_membership`, `group_member_ids_unique`. (Seed C19-5b: lookup and remove in two critical
+sections -> this obligation fails.) -/
+theorem membership_drop_is_one_critical_section :
+    Compio.Gen.membershipDropLocks = 1 ∧ Compio.Gen.membershipDropLookupRemoveSameGuard = true := by
   decide
 
 end Compio.Props.C19
